@@ -324,7 +324,7 @@ func sqlRowsErr(e *Engine, st *State, args []Value, depth int, pos string, k fun
 }
 
 func sqlRowsColumns(e *Engine, st *State, args []Value, depth int, pos string, k func(*State, Value)) {
-	k(st, VTuple{[]Value{VUnknown{nil, "columns"}, VNil{}}})
+	k(st, VTuple{[]Value{VUnknown{Typ: nil, Note: "columns"}, VNil{}}})
 }
 
 // xmarshalFacts: instances of A-JSON for a marshalled xattr map.
